@@ -190,6 +190,7 @@ class Inliner:
                         used_as_value.add(c.id)
         for h in used_as_value:
             self.helpers.pop(h, None)
+        self._find_cms(modname, tree, known)
         # new private methods (not in the inventory), called as `self.<name>(...)`; the name must be defined once in the module
         self.mhelpers: dict[str, ast.AST] = {}
         seen: dict[str, int] = {}
@@ -209,7 +210,34 @@ class Inliner:
                 if isinstance(c, ast.Attribute) and c.attr in self.mhelpers and not (isinstance(p, ast.Call) and p.func is c):
                     self.mhelpers.pop(c.attr, None)
 
+    def _find_cms(self, modname: str, tree: ast.Module, known: set) -> None:
+        """New module-level generator functions decorated with contextlib.contextmanager / asynccontextmanager with exactly one `yield` statement."""
+        self.cms: dict[str, ast.AST] = {}
+        for n in tree.body:
+            if isinstance(n, (ast.FunctionDef, ast.AsyncFunctionDef)) and f'{modname}.{n.name}' not in known and len(n.decorator_list) == 1:
+                d = n.decorator_list[0]
+                dn = d.attr if isinstance(d, ast.Attribute) else d.id if isinstance(d, ast.Name) else ''
+                want = 'asynccontextmanager' if isinstance(n, ast.AsyncFunctionDef) else 'contextmanager'
+                if dn != want:
+                    continue
+                a = n.args
+                if a.vararg or a.kwarg or a.posonlyargs:
+                    continue
+                ys = [x for x in ast.walk(n) if isinstance(x, (ast.Yield, ast.YieldFrom))]
+                stmts = [x for x in ast.walk(n) if isinstance(x, ast.Expr) and isinstance(x.value, ast.Yield)]
+                in_loop = any(isinstance(lp, (ast.For, ast.While, ast.AsyncFor)) and any(y is z for z in ast.walk(lp)) for lp in ast.walk(n) for y in ys)
+                nested = any(isinstance(x, (ast.FunctionDef, ast.AsyncFunctionDef, ast.Lambda, ast.ClassDef)) and x is not n for x in ast.walk(n))
+                has_ret = any(isinstance(x, ast.Return) for x in ast.walk(n))
+                if len(ys) == 1 and len(stmts) == 1 and isinstance(ys[0], ast.Yield) and not in_loop and not nested and not has_ret:
+                    self.cms[n.name] = n
+        for p in ast.walk(tree):        # used other than as `with cm(...)`: leave alone
+            for c in ast.iter_child_nodes(p):
+                if isinstance(c, ast.Name) and c.id in self.cms and isinstance(c.ctx, ast.Load) and not (isinstance(p, ast.Call) and p.func is c):
+                    self.cms.pop(c.id, None)
+
     def _helper_of(self, call: ast.Call):
+        if isinstance(call.func, ast.Name) and call.func.id in getattr(self, 'cms', {}) and getattr(self, '_cm_mode', False):
+            return self.cms[call.func.id], False
         if isinstance(call.func, ast.Name) and call.func.id in self.helpers:
             return self.helpers[call.func.id], False
         if isinstance(call.func, ast.Attribute) and isinstance(call.func.value, ast.Name) and call.func.value.id == 'self' and call.func.attr in self.mhelpers:
@@ -239,7 +267,7 @@ class Inliner:
         return True
 
     def run(self) -> int:
-        if not self.helpers and not self.mhelpers:
+        if not self.helpers and not self.mhelpers and not self.cms:
             return 0
         done = 0
         for _ in range(3):       # helpers calling helpers
@@ -247,7 +275,34 @@ class Inliner:
             done += n
             if not n:
                 break
+        if done:
+            self._drop_unreferenced()
         return done
+
+    def _drop_unreferenced(self) -> None:
+        """A new helper whose every use was expanded is no part of the program any more: its definition is removed, so that package-wide scans
+        (who-may-write, who-may-call) see each statement once, where it now runs."""
+        names = set(self.helpers) | set(self.cms) | set(self.mhelpers)
+        for name in names:
+            fn = self.helpers.get(name) or self.cms.get(name) or self.mhelpers.get(name)
+            refs = 0
+            for n in ast.walk(self.tree):
+                if n is fn:
+                    continue
+                if isinstance(n, ast.Name) and n.id == name:
+                    refs += 1
+                elif isinstance(n, ast.Attribute) and n.attr == name:
+                    refs += 1
+                elif isinstance(n, ast.Constant) and n.value == name:
+                    refs += 1                       # __all__, getattr(...)
+            inside = sum(1 for n in ast.walk(fn) if (isinstance(n, ast.Name) and n.id == name) or (isinstance(n, ast.Attribute) and n.attr == name))
+            if refs - inside > 0:
+                continue
+            for owner in [self.tree] + [c for c in self.tree.body if isinstance(c, ast.ClassDef)]:
+                if fn in owner.body:
+                    owner.body.remove(fn)
+                    if not owner.body:
+                        owner.body.append(ast.Pass())
 
     def _pass(self, tree: ast.Module) -> int:
         count = 0
@@ -295,7 +350,54 @@ class Inliner:
                 return value, False
         return None, False
 
+    def _try_with(self, s: ast.stmt) -> Optional[list]:
+        """`with cm(args) [as v]: BODY` with a new context-manager helper: the helper's body with its `yield` statement replaced by BODY."""
+        if not isinstance(s, (ast.With, ast.AsyncWith)) or len(s.items) != 1 or not isinstance(s.items[0].context_expr, ast.Call):
+            return None
+        call = s.items[0].context_expr
+        if not (isinstance(call.func, ast.Name) and call.func.id in self.cms):
+            return None
+        fn = self.cms[call.func.id]
+        if isinstance(fn, ast.AsyncFunctionDef) != isinstance(s, ast.AsyncWith):
+            return None
+        self._cm_mode = True
+        try:
+            body, _ = self._expand(call)
+        finally:
+            self._cm_mode = False
+        if body is None:
+            return None
+        var = s.items[0].optional_vars
+        done = [False]
+
+        def put(block: list) -> list:
+            out = []
+            for st in block:
+                if isinstance(st, ast.Expr) and isinstance(st.value, ast.Yield) and not done[0]:
+                    done[0] = True
+                    if var is not None:
+                        out.append(ast.copy_location(ast.Assign(targets=[var], value=st.value.value or ast.Constant(value=None)), s))
+                    out.extend(s.body)
+                    continue
+                for field in ('body', 'orelse', 'finalbody'):
+                    b = getattr(st, field, None)
+                    if isinstance(b, list) and b and isinstance(b[0], ast.stmt):
+                        setattr(st, field, put(b))
+                for h in getattr(st, 'handlers', []) or []:
+                    h.body = put(h.body)
+                out.append(st)
+            return out
+        new = put(body)
+        if not done[0]:
+            return None
+        for n in new:
+            ast.fix_missing_locations(n)
+        return new
+
     def _try_stmt(self, s: ast.stmt) -> Optional[list]:
+        w = self._try_with(s)
+        if w is not None:
+            return w
         value = s.value if isinstance(s, (ast.Expr, ast.Assign, ast.AnnAssign, ast.Return)) else None
         call, _ = self._call_of(value)
         if call is None:
@@ -310,6 +412,18 @@ class Inliner:
             ret = ast.copy_location(ast.Constant(value=None), s)
         if isinstance(s, (ast.Assign, ast.AnnAssign)) and isinstance(ret, ast.Name) and ret.id.rsplit('__i', 1)[-1].isdigit() and '__i' in ret.id:
             tgts = s.targets if isinstance(s, ast.Assign) else [s.target]
+            # `x = helper(p=x)` where the helper rebinds its parameter p and returns it: `p__iN = x ... x = p__iN`  ==>  the helper works on x itself
+            if len(tgts) == 1 and isinstance(tgts[0], ast.Name):
+                inits = [x for x in out if isinstance(x, ast.Assign) and len(x.targets) == 1 and isinstance(x.targets[0], ast.Name) and x.targets[0].id == ret.id
+                         and isinstance(x.value, ast.Name) and x.value.id == tgts[0].id]
+                others = sum(1 for x in out if x not in inits for n in ast.walk(x) if isinstance(n, ast.Name) and n.id == tgts[0].id)
+                if len(inits) == 1 and others == 0:
+                    out = [x for x in out if x is not inits[0]]
+                    ren = _Subst({ret.id: tgts[0].id})
+                    out = [ren.visit(x) for x in out]
+                    for n in out:
+                        ast.fix_missing_locations(n)
+                    return out
             if len(tgts) == 1 and isinstance(tgts[0], ast.Name) and not any(tgts[0].id in _names(x) for x in out):
                 # `r__iN, _ = X` ... `out = r__iN`  ==>  `out, _ = X`: the helper's result local becomes the caller's target
                 ren = _Subst({ret.id: tgts[0].id})
